@@ -158,6 +158,8 @@ def tile_case(case, length):
                 return None
             period = (v[-1] - v[0]) + (v[1] - v[0])
             c[k] = [v[i % n] + (i // n) * period for i in range(length)]
+            if c[k][-1] >= 7_000_000_000:
+                return None         # past the year 2190: datetime64[ns] ends in 2262
         else:
             c[k] = [v[i % n] for i in range(length)]
     c.pop("decimal_f32", None)
@@ -208,6 +210,8 @@ def run(out: Outcome, drv, prop):
     rng = gen.rng_for(out.seed, prop, "long")
     longs = []
     for fn in fns:
+        if fn == "climatology":
+            continue            # its generated axes span years: repeated, they leave the range of datetime64[ns]
         # (the trailing-window model of attenuated_signal_test is quadratic in the series length: shorter series there)
         for ln in ([515, 1030] if fn == "atten" else LONG_N if out.tier == "quick" else LONG_N + [33000, 66000]):
             for _try in range(20):
